@@ -39,7 +39,7 @@ Proof. exact ownership_matches_history. Qed.
    row is a permutation) no bell gets two turns in one row, and turns come in row order *)
 Theorem C08_tick_end_advances : forall w bell uc,
   let w' := fst (tick_end w bell uc) in
-  (N_of w <=? S (b_place (w_bot w))) = false ->
+  (Nat.min (length (b_row (w_bot w))) (N_of w) <=? S (b_place (w_bot w))) = false ->
   b_place (w_bot w') = S (b_place (w_bot w)) /\ b_row_number (w_bot w') = b_row_number (w_bot w)
   /\ b_row (w_bot w') = b_row (w_bot w).
 Proof. exact tick_end_advances. Qed.
